@@ -8,12 +8,13 @@ WT=/tmp/wt/v_$ID
 git -C /repo worktree remove --force $WT 2>/dev/null
 git -C /repo worktree add -q --detach $WT HEAD || exit 2
 cd $WT
-cp $C/demo_test.go $WT/seeded_${ID}_demo_test.go
-T=$(grep -o 'func TestSeeded_[A-Za-z0-9_]*' seeded_${ID}_demo_test.go | head -1 | sed 's/func //')
-R1=$(go1.26.8 test -vet=off -count=1 -run "^${T}\$" . >/tmp/wt/v_$ID.demo0.log 2>&1 && echo pass || echo fail)
+DD=${DEMO_DIR:-.}
+cp $C/demo_test.go $WT/$DD/seeded_${ID}_demo_test.go
+T=$(grep -o 'func TestSeeded_[A-Za-z0-9_]*' $DD/seeded_${ID}_demo_test.go | head -1 | sed 's/func //')
+R1=$(go1.26.8 test -vet=off -count=1 -run "^${T}\$" ./$DD >/tmp/wt/v_$ID.demo0.log 2>&1 && echo pass || echo fail)
 git apply $C/patch.diff || { echo "$ID patch does not apply"; exit 2; }
-R2=$(go1.26.8 test -vet=off -count=1 -run "^${T}\$" . >/tmp/wt/v_$ID.demo1.log 2>&1 && echo pass || echo fail)
-rm seeded_${ID}_demo_test.go
+R2=$(go1.26.8 test -vet=off -count=1 -run "^${T}\$" ./$DD >/tmp/wt/v_$ID.demo1.log 2>&1 && echo pass || echo fail)
+rm $DD/seeded_${ID}_demo_test.go
 R3=$(go1.26.8 test -vet=off -count=1 ./... >/tmp/wt/v_$ID.suite.log 2>&1 && echo pass || echo fail)
 if [ "$R3" = fail ]; then R3=$(go1.26.8 test -vet=off -count=1 ./... >/tmp/wt/v_$ID.suite.log 2>&1 && echo pass || echo fail-twice); fi
 echo "$ID demo_without=$R1 demo_with=$R2 suite_with=$R3 test=$T"
@@ -27,7 +28,7 @@ src,dst,id_,t=sys.argv[1:5]
 try: m=json.load(open(src))
 except Exception: m={}
 out={"id":id_,"property":m.get("property",id_[:3]),"summary":m.get("summary",""),"needs":m.get("needs",""),"files":m.get("files",[]),
- "demonstration":{"file":"demo_test.go","place":"repository root (copy as <name>_test.go)","test":t},
+ "demonstration":{"file":"demo_test.go","place":"directory %s of the repository (copy as <name>_test.go)"%__import__("os").environ.get("DEMO_DIR","."),"test":t},
  "confirmed":{"base":"/repo HEAD incl. fix commits","demo_without_patch":"pass","demo_with_patch":"fail","suite_with_patch":"pass",
    "commands":["go test -vet=off -count=1 -run ^%s$ .  (without patch)"%t,"git apply patch.diff","go test -vet=off -count=1 -run ^%s$ ."%t,"go test -vet=off -count=1 ./..."]},
  "origin":"written by an independent sub-agent that saw only the property text and a scratch worktree"}
